@@ -11,7 +11,7 @@ from ..skelrules import check_skeleton
 from . import c01
 
 PROP = "C06"
-FLOORS = {"C06-K1": 4, "C06-K2": 1, "C06-K3": 4}
+FLOORS = {"C06-I1": 2, "C06-K1": 4, "C06-K2": 1, "C06-K3": 4}
 
 EXPLANATION = (
     "Decided (thin claim – necessary conditions at skeleton level): (a) the induced sub-pattern shades exactly the cells whose whole region is shaded AND "
@@ -28,6 +28,9 @@ def run(ctx: Ctx) -> None:
     ctx.run(rule_k1, ctx)
     ctx.run(rule_k2, ctx)
     ctx.run(rule_k3, ctx)
+    from .. import oneshot
+
+    ctx.run(oneshot.report, ctx, "C06-I1", ["permuta.patterns.meshpatt"], ["MeshPatt.sub_mesh_pattern"])
 
 
 def rule_k1(ctx: Ctx) -> None:
